@@ -465,7 +465,11 @@ func (e *Exec) callValue(g *G, fn Value, args []Value, dest ssa.Value, setup fun
 		case quiesceRetry:
 			return false
 		case tailCall:
-			return e.callValue(g, r.fn, r.args, dest, setup, owner, d)
+			ta := r.args
+			if ta == nil {
+				ta = nil
+			}
+			return e.callValue(g, r.fn, ta, dest, setup, owner, d)
 		case panicked:
 			return true
 		default:
